@@ -92,6 +92,10 @@ class Contract:
                 self.bounded = True
             elif k == 'pure':
                 self.pure = True
+            elif k == 'inline':
+                # callers execute the body itself (more precise than the
+                # contract, which is still verified on its own)
+                self.inline = True
             elif k == 'properties':
                 self.properties = [a.value for a in c.args]
             elif k == 'sort':
